@@ -299,10 +299,46 @@ pub fn probe(args: &Args) {
         "sample": [names[names.len() / 3], names[names.len() / 2]]}));
 }
 
+/// Exhaustive walk: every label that occurs anywhere in the list, under every parent of the list (part k of n of the
+/// parents).  A lookup that leaves the range of its parent - into a neighbour's children, past the end of the table -
+/// or that confuses labels with a common prefix disagrees with the algorithm on one of these names.
+pub fn cross(args: &Args) {
+    let rules = parse_dat(args.get("dat").unwrap_or(DAT));
+    let (k, n) = (args.num("part", 0) as usize, args.num("of", 1) as usize);
+    let mut out = Sink::create(args.req("out"));
+    let all: Vec<&Vec<String>> = rules.normal.iter().chain(rules.wild.iter()).chain(rules.exc.iter()).collect();
+    let mut pool: Vec<String> = all.iter().flat_map(|r| r.iter().cloned()).collect();
+    pool.sort();
+    pool.dedup();
+    let mut parents: Vec<Vec<String>> = vec![];
+    for r in &all {
+        for i in 0..r.len() {
+            parents.push(r[i + 1..].to_vec());
+        }
+    }
+    parents.sort();
+    parents.dedup();
+    let mut names = 0u64;
+    for (i, p) in parents.iter().enumerate() {
+        if i % n != k {
+            continue;
+        }
+        for l in &pool {
+            let mut v = vec![l.clone()];
+            v.extend(p.iter().cloned());
+            out.emit(observe("canon", &v.join(".")));
+            names += 1;
+        }
+    }
+    let ev = out.finish();
+    println!("{}", json!({"parents": parents.len(), "labels": pool.len(), "names": names, "events": ev}));
+}
+
 pub fn main(args: &Args) {
     util::quiet_panics();
     match args.pos.first().map(|s| s.as_str()) {
         Some("probe") => probe(args),
+        Some("cross") => cross(args),
         Some("rules") => {
             let mut s = Sink::create(args.req("out"));
             s.emit(rules_json(&parse_dat(args.get("dat").unwrap_or(DAT))));
